@@ -2,7 +2,7 @@ SPECIFICATION Spec
 CONSTANTS
   MB = 23
   EB = 8
-  NGen = 4
+  NGen = 5
   MaxObj = 2
   MaxCount = 23
 INVARIANTS TypeOK GhostOK
